@@ -875,7 +875,21 @@ func HarnessC07Malformed() {
 	op.Parameters = []spec.Parameter{p}
 	ops := map[string]map[string]*spec.Operation{"GET": {"/p/{q}": op}}
 	cont := verifBool()
-	s := newSpecHarnessValidator(&spec.Swagger{}, ops, cont, true)
+	sw := &spec.Swagger{}
+	// parameters declared by the path item: none, an inline one, a reference into #/parameters that
+	// resolves, one that leads nowhere
+	pi := spec.PathItem{}
+	switch verifChoose(4) {
+	case 1:
+		pi.Parameters = []spec.Parameter{*spec.HeaderParam("h").Typed("string", "")}
+	case 2:
+		sw.Parameters = map[string]spec.Parameter{"shared": *spec.QueryParam("s").Typed("string", "")}
+		pi.Parameters = []spec.Parameter{*spec.ParamRef("#/parameters/shared")}
+	case 3:
+		pi.Parameters = []spec.Parameter{*spec.ParamRef("#/parameters/nope"), *spec.HeaderParam("h").Typed("string", "")}
+	}
+	sw.Paths = &spec.Paths{Paths: map[string]spec.PathItem{"/p/{q}": pi}}
+	s := newSpecHarnessValidator(sw, ops, cont, true)
 	verifAssert(s.validateItems() != nil, "items-rule-returns")
 	verifAssert(s.validateParameters() != nil, "parameters-rule-returns")
 	verifAssert(s.validateNonEmptyPathParamNames() != nil, "path-names-rule-returns")
